@@ -48,8 +48,7 @@ SCRATCH = Path(os.environ.get("C01_SCRATCH", "/tmp/agents/c01"))
 
 XHTML = "{http://www.w3.org/1999/xhtml}"
 XFORMS = "{http://www.w3.org/2002/xforms}"
-ORACLE_OF = {"F1": {"not-wellformed"}, "F2": {"not-wellformed", "unbound-prefix"}, "F2b": {"bad-namespace-declaration"},
-             "F3": {"unbound-prefix"}, "F4": {"not-wellformed"}}
+ORACLE_OF = {"F5": {"not-wellformed"}, "F2b": {"bad-namespace-declaration"}, "F3x": {"bad-namespace-declaration"}}
 
 
 # ------------------------------------------------------------------ independent skeleton (ElementTree)
@@ -84,6 +83,14 @@ def expat_ns_ok(text: str) -> bool:
         return False
 
 
+def non_ascii_names(tree) -> bool:
+    if "x" in tree:
+        return False
+    if not tree["t"].isascii() or any(not a[0].isascii() for a in tree["a"]):
+        return True
+    return any(non_ascii_names(k) for k in tree["k"])
+
+
 # ------------------------------------------------------------------ oracle on one text
 
 
@@ -91,6 +98,18 @@ def oracle_text(ctx, text: str, fid: str, what: str):
     """-> (verdict dict from the Lean oracle, failure kind | None).  Cross-checks the readers."""
     v = ctx.driver.call("xml.c01", text=text, fid=fid, tree=True)
     et, err = xmlutil.expat_tree(text)
+    if v["ok"] and et is None and non_ascii_names(v["tree"]):
+        # expat implements the name classes of XML 1.0 *4th* edition; the Lean reader (and pyxform's own
+        # NCName regex) those of the 5th edition, which admit many more non-ASCII name characters.
+        # Such a document is well-formed per the current specification; expat cannot be the referee.
+        ctx.count("expat-4th-edition-name-rules:cross-check-skipped")
+        if not v["declsOk"]:
+            return v, "bad-namespace-declaration"
+        if not v["bound"]:
+            return v, "unbound-prefix"
+        if not v["skeleton"]:
+            return v, ("form-id" if v.get("rootId") is not None and v["rootId"] != fid else "skeleton")
+        return v, None
     if v["ok"] != (et is not None) or (v["ok"] and not xmlutil.tree_eq(v["tree"], et)):
         raise vcore.Infra(f"Lean XML reader and expat disagree on {what}: lean={'ok' if v['ok'] else 'reject'} "
                           f"expat={err or 'ok'} text={text[:400]!r}")
@@ -344,24 +363,109 @@ def md_form(form):
     return f
 
 
+def reserved_uri(tree) -> bool:
+    if "x" in tree:
+        return False
+    return any(a[0].startswith("xmlns") and a[1] in c01_gen.RESERVED_NS_URIS for a in tree["a"]) or any(reserved_uri(k) for k in tree["k"])
+
+
+def dom_cases(ctx, n):
+    """validate_xml_document (the last step of Survey.xml()) against its Lean model `validDoc` on random
+    DOM trees; and its purpose — whatever it accepts is written as a well-formed, namespace-valid
+    document — decided by the Lean reader on the implementation writer's output."""
+    try:
+        from pyxform.utils import validate_xml_document
+    except ImportError:
+        ctx.count("dom:no-validate_xml_document-in-this-tree")
+        return
+    from pyxform.errors import PyXFormError
+
+    rng = ctx.rng
+    for _ in range(n):
+        tree = c01_gen.random_named_tree(rng)
+        if not tree["t"]:
+            tree["t"] = "a"  # minidom cannot hold an element without a tag name
+        try:
+            dom = xmlutil.build_dom(tree)
+        except Exception:  # noqa: BLE001
+            ctx.count("dom:not-buildable")
+            continue
+        try:
+            validate_xml_document(dom)
+            accepted = True
+        except PyXFormError:
+            accepted = False
+        m = ctx.driver.call("xml.validdoc", tree=tree)
+        ctx.count(f"dom:impl-{'accepts' if accepted else 'rejects'}")
+        if m["valid"] != accepted:
+            ctx.mismatch("validate_xml_document vs validDoc", {"dom": tree}, accepted, m["valid"])
+        if accepted:
+            for pretty in (False, True):
+                text = xmlutil.impl_render(tree, pretty)
+                v = ctx.driver.call("xml.c01", text=text, fid="", tree=False)
+                ok = v["ok"] and v["bound"] and v["declsOk"]
+                if not non_ascii_names(tree) and ok != expat_ns_ok(text):
+                    raise vcore.Infra(f"Lean reader says {ok}, namespace-aware expat the opposite, on a validated DOM: {text[:400]!r}")
+                if not ok:
+                    typo = [x for x in c01_gen.tree_names(tree) if c01_gen.TYPO_LIT in x]
+                    xel = [x for x in c01_gen.tree_tags(tree) if x.startswith("xmlns:")]
+                    if typo and not v["ok"]:
+                        ctx.fail(Failure("known-shape", f"F5: accepted DOM with name {typo[0]!r} is not well-formed", {"dom": tree},
+                                         extra={"class": "F5", "oracle": "not-wellformed", "witness": typo[0], "compact": text}))
+                    elif (xel or reserved_uri(tree)) and v["ok"] and v["bound"] and not v["declsOk"]:
+                        cls = "F3x" if xel else "F2b"
+                        ctx.fail(Failure("known-shape", f"{cls}: accepted DOM with an illegal use of a reserved namespace name/prefix", {"dom": tree},
+                                         extra={"class": cls, "oracle": "bad-namespace-declaration", "witness": (xel or ["reserved uri"])[0], "compact": text}))
+                    else:
+                        ctx.fail(Failure("validated-dom-not-wellformed", "validate_xml_document accepts a DOM whose serialisation is not "
+                                         "well-formed / namespace-valid", {"dom": tree}, extra={"text": text, "pretty": pretty}))
+                    break
+        ctx.record({"dom": tree}, accepted)
+
+
 def explore(ctx, factor, bs):
+    """factor > 1 is the failing-input search (a proof or the correspondence broke): same streams,
+    more cases, but bounded in time (quick: ~60 s)."""
+    import time
+
     rng = ctx.rng
     big = not ctx.quick()
-    n = ctx.pick(600, 6000) * factor
-    for _ in range(n):
+    deadline = None if factor == 1 else time.time() + ctx.pick(60, 300)
+
+    def more():
+        if len(ctx.failures) >= 10:
+            return False  # enough concrete failing inputs; every further one costs the attribution re-runs
+        return deadline is None or (time.time() < deadline and not ctx.failures)
+
+    # name probes first: small forms, the cheapest way to a concrete input when a name check changed
+    for _ in range(ctx.pick(260, 3000) * factor):
+        if not more():
+            break
+        form_case(ctx, c01_gen.name_probe_form(rng), stream="names")
+    for _ in range(ctx.pick(520, 6000) * factor):
+        if not more():
+            break
         form_case(ctx, c01_gen.general_form(rng, big=big))
-    for cls in ("F1", "F2", "F2b", "F3", "F4"):
-        for _ in range(ctx.pick(6, 40) * factor):
+    # shapes that used to be findings F1-F4/F2b (now rejected by validate_xml_document) and the open F5
+    for cls in ("F1", "F2", "F2b", "F3", "F4", "F5", "F3x"):
+        for _ in range(ctx.pick(5, 40) * factor):
+            if not more():
+                break
             form_case(ctx, c01_gen.directed(rng, cls), stream="directed-" + cls)
-    if big:
+    if big and more():
         SCRATCH.mkdir(parents=True, exist_ok=True)
         for _ in range(600 * factor):
+            if not more():
+                break
             form = md_form(c01_gen.general_form(rng, big=True))
             if form is not None:
                 form_case(ctx, form, via="md", stream="general")
         for i in range(250 * factor):
+            if not more():
+                break
             form = c01_gen.general_form(rng, big=True)
             form_case(ctx, form, via="xlsx", fallback=rng.choice(["book", "My-Form_1"]), stream="general")
+    dom_cases(ctx, ctx.pick(300, 4000) * (1 if factor == 1 else 2))
     tot = ctx.dist.get("model:answered", 0) + ctx.dist.get("model:unsupported", 0)
     ctx.notes["fragment_share"] = {"answered": ctx.dist.get("model:answered", 0), "unsupported": ctx.dist.get("model:unsupported", 0),
                                    "share": round(ctx.dist.get("model:answered", 0) / tot, 4) if tot else None}
@@ -370,7 +474,23 @@ def explore(ctx, factor, bs):
 def replay(ctx, payload, bs):
     case = payload["case"]
     before = len(ctx.failures), len(ctx.mismatches)
+    if "dom" in case:
+        return _replay_dom(ctx, case["dom"], before)
     form_case(ctx, case["form"], via=case.get("via", "dict"), fallback=case.get("fallback", "data"), stream="replay")
+    return (len(ctx.failures), len(ctx.mismatches)) == before
+
+
+def _replay_dom(ctx, tree, before):
+    import random
+
+    class One(random.Random):
+        pass
+    orig = c01_gen.random_named_tree
+    c01_gen.random_named_tree = lambda rng: tree
+    try:
+        dom_cases(ctx, 1)
+    finally:
+        c01_gen.random_named_tree = orig
     return (len(ctx.failures), len(ctx.mismatches)) == before
 
 
@@ -382,11 +502,9 @@ def _m(cls):
 
 
 MATCHERS = {
-    "F1-choices-column-not-a-name": _m("F1"),
-    "F2-custom-attribute-not-a-name": _m("F2"),
-    "F2b-illegal-namespace-declaration": _m("F2b"),
-    "F3-unbound-prefix": _m("F3"),
-    "F4-non-xml-character": _m("F4"),
+    "F5-ncname-typo-literal": _m("F5"),
+    "F2b-reserved-namespace-uri": _m("F2b"),
+    "F3x-xmlns-prefixed-element": _m("F3x"),
 }
 
 
